@@ -20,12 +20,12 @@ import (
 )
 
 type c05cCase struct {
-	Strategy string  `json:"strategy"`
-	Traj     []int   `json:"traj"`
-	Workers  int     `json:"workers"`
-	Cycles   int     `json:"cycles"`
-	Order    []int   `json:"order"`
-	Yields   []uint8 `json:"yields"`
+	Strategy string    `json:"strategy"`
+	Traj     []int     `json:"traj"`
+	Workers  int       `json:"workers"`
+	Cycles   int       `json:"cycles"`
+	Order    []int     `json:"order"`
+	Yields   yieldList `json:"yields"`
 }
 
 type yieldStrategy struct {
@@ -52,7 +52,7 @@ func genC05C(t *rapid.T) c05cCase {
 	c.Workers = rapid.IntRange(2, 4).Draw(t, "workers")
 	c.Cycles = rapid.IntRange(12, 40).Draw(t, "cycles")
 	c.Order = rapid.Permutation(seq(c.Workers)).Draw(t, "order")
-	c.Yields = rapid.SliceOfN(rapid.SampledFrom([]uint8{0, 0, 0, 1, 1, 2, 3, 6}), 0, 200).Draw(t, "yields")
+	c.Yields = yieldList(rapid.SliceOfN(rapid.SampledFrom([]uint8{0, 0, 0, 1, 1, 2, 3, 6}), 0, 200).Draw(t, "yields"))
 	return c
 }
 
